@@ -38,6 +38,7 @@ WEIGHTS = {
     'import': 3,
     'reopen': 3,
     'reinit': 1,
+    'addpack_off': 2,
 }
 
 
